@@ -6,7 +6,7 @@
    failing-schedule search and a cross-check that the table is not missing a write. *)
 From Coq Require Import List NArith ZArith Bool Arith.
 From PV Require Import Model.GunOwner Model.ScenarioHeap Proofs.GunOwnerProofs Proofs.ScenarioHeapProofs
-  Model.GrpcCall Proofs.GrpcCallProofs.
+  Model.GrpcCall Proofs.GrpcCallProofs Model.AmmoOwner Proofs.AmmoOwnerProofs.
 Import ListNotations.
 
 (* (a) Every trace of the engine model — any interleaving of any number of instances, each running
@@ -39,6 +39,21 @@ Theorem C11_exclusive_b_sound :
   (forall g, alt_run g false tr <> None).
 Proof. exact exclusive_b_sound. Qed.
 Print Assumptions C11_exclusive_b_sound.
+
+(* (a') Ammo objects: every trace of the instance loops  Acquire; …; Release  (one object at a time
+   per instance) satisfies, for every ammo object: Acquire and Release alternate and each Release is
+   by the goroutine of the preceding Acquire — an object is held by at most one instance between
+   Acquire and Release and is handed back exactly once (so a provider that recycles released
+   objects never gives one object to two instances). *)
+Theorem C11_ammo_exclusive :
+  forall tr st, arun [] tr = Some st -> forall a, obj_run a None tr <> None.
+Proof. exact ammo_exclusive. Qed.
+Print Assumptions C11_ammo_exclusive.
+
+Theorem C11_ammo_exclusive_b_sound :
+  forall tr, ammo_exclusive_b tr = true -> forall a, obj_run a None tr <> None.
+Proof. exact ammo_exclusive_b_sound. Qed.
+Print Assumptions C11_ammo_exclusive_b_sound.
 
 (* (b) FULL over the footprint table: for any two operations of different instances (any step
    definitions, any instance numbers), a cell written by one and read or written by the other is
@@ -110,6 +125,14 @@ Example C11_trace_example :
   orun oinit [OMake 0; OBind 0 0; OStart 0 0; OStart 0 0] = None /\
   orun oinit [OMake 0; OBind 0 0; OStart 0 0; OEnd 0 0; OStart 1 0] = None /\
   exclusive_b [OMake 0; OBind 0 0; OStart 0 0; OStart 1 0] = false.
+Proof. repeat split; vm_compute; congruence. Qed.
+
+(* an accepted ammo trace; a double release and a hand-out of a held object are rejected *)
+Example C11_ammo_example :
+  arun [] [AAcq 0 0; AAcq 1 1; ARel 0 0; AAcq 0 0; ARel 1 1; ARel 0 0] <> None /\
+  arun [] [AAcq 0 0; ARel 0 0; ARel 0 0] = None /\
+  arun [] [AAcq 0 0; AAcq 1 0] = None /\
+  ammo_exclusive_b [AAcq 0 0; ARel 0 0; ARel 0 0] = false.
 Proof. repeat split; vm_compute; congruence. Qed.
 
 (* the table is not vacuous: the same write WITHOUT the copy (the shape of the repaired defect:
